@@ -193,7 +193,12 @@ var methodsPool = []string{"GET", "POST", "PUT", "PATCH", "DELETE", "HEAD", "OPT
 func (r *rawReq) mutate(rng *rand.Rand, which int) string {
 	path, query := splitTarget(r.target)
 	segs := strings.Split(path, "/")
-	join := func() { r.target = path; if query != "" { r.target += "?" + query } }
+	join := func() {
+		r.target = path
+		if query != "" {
+			r.target += "?" + query
+		}
+	}
 	switch which {
 	case 0: // truncate the path at a segment boundary
 		if len(segs) > 1 {
